@@ -11,6 +11,20 @@ def flatten(n, out):
     out.append(n)
 
 
+def _flatten_plus(n, out):
+    """operands of a std::string concatenation a + b + c, wrappers removed"""
+    n = strip(n)
+    while n is not None and n['k'] in ('CXXConstructExpr', 'CXXBindTemporaryExpr', 'MaterializeTemporaryExpr', 'CXXFunctionalCastExpr', 'ExprWithCleanups') and n.get('c') and len([c for c in n['c'] if c]) == 1:
+        n = strip([c for c in n['c'] if c][0])
+    if n is None:
+        return
+    if n['k'] == 'CXXOperatorCallExpr' and n.get('op') == '+' and len(n.get('c', [])) >= 3:
+        _flatten_plus(n['c'][1], out)
+        _flatten_plus(n['c'][2], out)
+        return
+    out.append(n)
+
+
 def _literal_array(d):
     """strings of  T name[] = {"...", "..."}  (every element a string literal), else None"""
     init = d.get('init')
@@ -35,6 +49,7 @@ def template(fb, func, allow=(), bind=None, depth=0):
     over a local array of string literals whose body is stream insertions is unrolled."""
     res, nonlit, ctrl = [], [], []
     arrays = {}
+    strlocals = {}
 
     def stmts(lst, bind):
         nonlocal nonlit, ctrl
@@ -46,6 +61,15 @@ def template(fb, func, allow=(), bind=None, depth=0):
                 ops = []
                 flatten(s, ops)
                 for o in ops[1:]:
+                    if o['k'] == 'DeclRefExpr' and o.get('ref', {}).get('lid') in strlocals:
+                        # a local string built from literals and other operands (`const std::string es = _prefix + "ctx.entry_set";`)
+                        for part in strlocals[o['ref']['lid']]:
+                            if part['k'] == 'StringLiteral':
+                                res.append(part.get('str', ''))
+                            else:
+                                res.append('<<?%d>>' % len(nonlit))
+                                nonlit.append(part)
+                        continue
                     if o['k'] == 'DeclRefExpr' and o.get('ref', {}).get('lid') in bind:
                         b = strip(bind[o['ref']['lid']])
                         # const char* parameters bound to a literal
@@ -82,6 +106,11 @@ def template(fb, func, allow=(), bind=None, depth=0):
                     la = _literal_array(d)
                     if la:
                         arrays[d['lid']] = la
+                    elif 'lid' in d and 'string' in (d.get('t') or '') and isinstance(d.get('init'), dict):
+                        parts = []
+                        _flatten_plus(d['init'], parts)
+                        if any(p_['k'] == 'StringLiteral' for p_ in parts):
+                            strlocals[d['lid']] = parts
                 continue
             elif s['k'] == 'CXXForRangeStmt' and _unrollable(s, arrays):
                 arr, var, body = _unrollable(s, arrays)
